@@ -121,9 +121,9 @@ pub fn run(ctx: Ctx) -> Report {
 pub fn meta() -> CheckMeta {
     CheckMeta {
         level: "exploration",
-        rule: "each case = a generated scheme (sizes <= 65535; incl. the built-in default, missing/empty line 0, junk entries, check marks, reversed ranges, any stop) driving the real send_authentication and a real client Session on a MemPipe that accepts whole writes (one write_all = one record); a single submitter issues stop+3 packets whose payload sizes are placed around the scheme's own sizes (L < s-7, s-7 <= L <= s, L > s, L > sum) ; the preamble (hash, announced length, bytes carried) and the write-length sequence of every session packet k are checked by a nondeterministic reference acceptor for line k (unpadded for k >= stop or a missing line); the server->client recording must contain no command-0 frame. Concurrent part: 2-4 tasks write at the same time for 1-3 rounds under random forced yields at the scheduling points; the j-th packet ON THE WIRE must be accepted by line j (the packet index may not be drawn in one order and the transport reached in another). distinct_nontrivial = distinct (scheme, payload sizes, observed write sizes) with at least one shaped packet, plus distinct concurrent interleavings.".into(),
-        assumptions: vec!["write-call boundaries are observed because the MemPipe accepts every write whole".into(), "padding byte values are not judged, only sizes".into(), "concurrent part: 2-4 writers x 1-3 rounds under random forced yields on a ladder scheme (distinct size range per line); packets are delimited on the wire by their payload frames".into()],
-        floors: vec![("packets_checked_against_a_scheme_line", 1000), ("packets_checked_after_stop", 300), ("preambles_checked", 500), ("padding_bytes_explained", 10_000), ("concurrent_packets_checked", 500)],
+        rule: "each case = a generated scheme (sizes <= 65535; incl. the built-in default, missing/empty line 0, junk entries, check marks, reversed ranges, any stop) driving the real send_authentication and a real client Session on a MemPipe that accepts whole writes (one write_all = one record); a single submitter issues stop+3 packets whose payload sizes are placed around the scheme's own sizes (L < s-7, s-7 <= L <= s, L > s, L > sum) ; the preamble (hash, announced length, bytes carried) and the write-length sequence of every session packet k are checked by a nondeterministic reference acceptor for line k (unpadded for k >= stop or a missing line); the server->client recording must contain no command-0 frame. Concurrent part: 2-4 tasks write at the same time for 1-3 rounds under random forced yields at the scheduling points; the j-th packet ON THE WIRE must be accepted by line j (the packet index may not be drawn in one order and the transport reached in another). End to end: the real Client (client.rs: authentication with its configured scheme, Settings + SYN + destination batched into the first packet) against the real Server behind a TCP relay that records the length of every TLS record, i.e. what an on-path observer sees; destinations IPv4 / IPv6 / names of 3-60 characters (different first-packet payloads), then stop+1 echoed chunks sized around the scheme's own sizes; the client->server application record sizes must be explainable as preamble (34 + a size of line 0), then packet k by line k (unpadded from stop on); while echoing, the server->client records must carry exactly the echoed bytes plus 7 bytes per frame. distinct_nontrivial = distinct (scheme, payload sizes, observed write sizes) with at least one shaped packet, plus distinct concurrent interleavings, plus distinct e2e (scheme, record sizes).".into(),
+        assumptions: vec!["write-call boundaries are observed because the MemPipe accepts every write whole".into(), "padding byte values are not judged, only sizes".into(), "concurrent part: 2-4 writers x 1-3 rounds under random forced yields on a ladder scheme (distinct size range per line); packets are delimited on the wire by their payload frames".into(), "end-to-end part: one TLS record per transport write below 16 KiB (rustls neither merges nor splits such writes), TLS 1.3 AEAD overhead of 17 bytes calibrated on the client's Finished record (otherwise inconclusive); the first session packet is the batch Settings + SYN + destination, as the anchored mechanism says; the session's own start-up keep-alive request (7 bytes) may land at any packet position; record sizes are cut into packets nondeterministically (any cut that the lines accept counts)".into()],
+        floors: vec![("packets_checked_against_a_scheme_line", 1000), ("packets_checked_after_stop", 300), ("preambles_checked", 500), ("padding_bytes_explained", 10_000), ("concurrent_packets_checked", 500), ("e2e_cases_judged", 100), ("e2e_records_explained", 600), ("e2e_server_records_checked", 200)],
         exhaustive: false,
     }
 }
@@ -251,4 +251,351 @@ pub fn run_concurrent(ctx: Ctx, rep: &mut Report, shard: usize, nshards: usize) 
             }
         }
     }
+}
+
+// ---------------------------------------------------------------------------
+// end to end: the real Client behind a relay that records TLS record lengths — what an on-path
+// observer sees. One TLS record per transport write (rustls never merges writes and, below 16 KiB,
+// never splits one), so plaintext write sizes are record lengths minus the AEAD overhead.
+
+#[derive(Clone, Debug)]
+enum Spec {
+    /// authentication preamble: 34 + l bytes, l drawn from line 0 (any write boundaries)
+    Preamble(u64, u64),
+    Shaped(Vec<Item>, usize),
+    Unpadded(usize),
+}
+
+fn spec_accepts(s: &Spec, seg: &[usize]) -> bool {
+    match s {
+        Spec::Preamble(lo, hi) => {
+            let t = seg.iter().sum::<usize>() as u64;
+            !seg.is_empty() && t >= 34 + lo && t <= 34 + hi
+        }
+        Spec::Shaped(items, p) => refscheme::accept_packet(items, *p, seg).is_ok(),
+        Spec::Unpadded(p) => refscheme::accept_unpadded(*p, seg).is_ok(),
+    }
+}
+
+/// Is there a way to cut the observed write sizes into consecutive segments, one per packet, such that
+/// every packet's segment is accepted by its spec? Returns Err((packets explained, writes explained)).
+fn explain(specs: &[Spec], writes: &[usize]) -> Result<(), (usize, usize)> {
+    let n = writes.len();
+    let mut reach = vec![vec![false; n + 1]; specs.len() + 1];
+    reach[0][0] = true;
+    let mut best = (0, 0);
+    for k in 0..specs.len() {
+        for i in 0..=n {
+            if !reach[k][i] {
+                continue;
+            }
+            for j in i + 1..=n.min(i + 40) {
+                if spec_accepts(&specs[k], &writes[i..j]) {
+                    reach[k + 1][j] = true;
+                    if (k + 1, j) > best {
+                        best = (k + 1, j);
+                    }
+                }
+            }
+        }
+    }
+    if reach[specs.len()][n] { Ok(()) } else { Err(best) }
+}
+
+/// length of the Settings frame the real client session sends (taken from the real code on an
+/// in-memory transport, so that a changed client string does not need a change here)
+fn measured_settings_frame_len() -> Option<usize> {
+    use crate::engine;
+    use crate::mempipe::{PipeCfg, pipe};
+    run::vt_block_on_deadline(std::time::Duration::from_secs(1000), async {
+        let (c2s_w, c2s_r, c2s) = pipe(PipeCfg::plain());
+        let (s2c_w, s2c_r, _s2c) = pipe(PipeCfg::plain());
+        let (_server, mut ns, _t) = engine::start_server(c2s_r, s2c_w, engine::no_padding());
+        tokio::spawn(async move { while ns.recv().await.is_some() {} });
+        let client = engine::start_client(s2c_r, c2s_w, engine::no_padding(), None).await.ok()?;
+        let _ = engine::open_like_client(&client, bytes::Bytes::from_static(b"x")).await.ok()?;
+        tokio::time::sleep(std::time::Duration::from_secs(1)).await;
+        let bytes = c2s.with_log(|l| l.bytes.clone());
+        let (frames, _) = refcodec::parse_all(&bytes);
+        frames.iter().find(|f| f.cmd == refcodec::SETTINGS).map(|f| f.total())
+    })
+    .flatten()
+}
+
+#[derive(Clone, Debug)]
+struct E2eCase {
+    idx: usize,
+    scheme: Scheme,
+    host: String,
+    chunks: Vec<usize>,
+}
+
+struct E2eOut {
+    c2s: Vec<usize>,
+    handshake_ok: bool,
+    note: Option<String>,
+    s2c_delta: (usize, usize), // plaintext bytes, records during the echo phase
+    echoed: usize,
+}
+
+const AEAD_OVERHEAD: usize = 17; // TLS 1.3: 1 byte inner content type + 16 byte tag
+
+async fn e2e_case(c: &E2eCase, tport: u16) -> Result<E2eOut, String> {
+    use crate::engine;
+    use crate::netkit;
+    use bytes::Bytes;
+    use std::time::Duration;
+    let padding = engine::padding_from(&c.scheme.text()).map_err(|e| format!("scheme rejected: {e}"))?;
+    let (server_addr, sh) = netkit::start_server(netkit::PASSWORD, padding.clone()).await.ok_or("cannot start server")?;
+    let relay = netkit::start_rec_relay(server_addr).await.ok_or("cannot start relay")?;
+    let client = netkit::make_client(&relay.addr, netkit::PASSWORD, padding, anytls_rs::client::SessionPoolConfig { check_interval: Duration::from_secs(3600), idle_timeout: Duration::from_secs(7200), min_idle_sessions: 0 });
+    let r = async {
+        let (stream, session) = tokio::time::timeout(Duration::from_secs(30), client.create_proxy_stream((c.host.clone(), tport))).await.map_err(|_| "open did not return in 30 s".to_string())?.map_err(|e| format!("open failed: {e}"))?;
+        tokio::time::sleep(Duration::from_millis(40)).await;
+        let rec = relay.conns.lock().unwrap().first().cloned().ok_or("relay saw no connection")?;
+        let s2c_mark = rec.s2c.lock().unwrap().len();
+        let mut echoed = 0usize;
+        for (i, n) in c.chunks.iter().enumerate() {
+            let data: Vec<u8> = (0..*n).map(|j| (j as u8) ^ (i as u8).wrapping_mul(37)).collect();
+            tokio::time::timeout(Duration::from_secs(20), session.write_data_frame(stream.id(), Bytes::from(data.clone()))).await.map_err(|_| "write blocked 20 s".to_string())?.map_err(|e| format!("write failed: {e}"))?;
+            let mut got = vec![0u8; *n];
+            let mut rd = stream.reader().lock().await;
+            tokio::time::timeout(Duration::from_secs(20), rd.read_exact(&mut got)).await.map_err(|_| format!("echo of chunk {i} ({n} bytes) did not come back in 20 s"))?.map_err(|e| format!("echo read failed: {e}"))?;
+            if got != data {
+                return Err(format!("echo of chunk {i} differs"));
+            }
+            echoed += n;
+        }
+        tokio::time::sleep(Duration::from_millis(40)).await;
+        if relay.conns.lock().unwrap().len() != 1 {
+            return Err(format!("client used {} TLS connections for one request", relay.conns.lock().unwrap().len()));
+        }
+        if let Some(g) = rec.garbage.lock().unwrap().first() {
+            return Err(format!("relay could not parse a TLS record header: {g}"));
+        }
+        let c2s: Vec<netkit::TlsRec> = rec.c2s.lock().unwrap().clone();
+        let s2c: Vec<netkit::TlsRec> = rec.s2c.lock().unwrap()[s2c_mark..].to_vec();
+        // strip the client's handshake flight: ClientHello (22), optional CCS (20), Finished (first 23)
+        let mut i = 0;
+        while i < c2s.len() && (c2s[i].typ == 22 || c2s[i].typ == 20) {
+            i += 1;
+        }
+        let handshake_ok = i >= 1 && i < c2s.len() && c2s[i].typ == 23 && (c2s[i].len == 36 + AEAD_OVERHEAD || c2s[i].len == 52 + AEAD_OVERHEAD);
+        let app: Vec<usize> = c2s[(i + 1).min(c2s.len())..].iter().filter(|r| r.typ == 23).map(|r| r.len.saturating_sub(AEAD_OVERHEAD)).collect();
+        let s2c_bytes: usize = s2c.iter().map(|r| r.len.saturating_sub(AEAD_OVERHEAD)).sum();
+        let out = E2eOut { c2s: app, handshake_ok, note: None, s2c_delta: (s2c_bytes, s2c.len()), echoed };
+        let _ = tokio::time::timeout(Duration::from_secs(5), session.close()).await;
+        Ok(out)
+    }
+    .await;
+    sh.abort();
+    drop(relay);
+    r
+}
+
+pub fn run_e2e(ctx: Ctx) -> Report {
+    use crate::netkit::{self, Target};
+    use std::sync::{Arc, Mutex};
+    let n = ctx.tier.pick(160, 4000);
+    let seed = ctx.seed;
+    let mut rep0 = Report::new("C05");
+    let Some(settings_len) = measured_settings_frame_len() else {
+        rep0.inconclusive("could not measure the client's Settings frame");
+        return rep0;
+    };
+    run::case_begin("C05 e2e");
+    let mut rep = run::rt_block_on(8, async move {
+        let mut rep = Report::new("C05");
+        let Some(dns) = netkit::start_fake_dns().await else {
+            rep.inconclusive("cannot start fake DNS");
+            return rep;
+        };
+        if !netkit::use_fake_dns(&dns).await {
+            rep.inconclusive("cannot install fake DNS");
+            return rep;
+        }
+        let (Some(mut t4), Some(mut t6)) = (Target::bind_v4(0).await, Target::bind_v6_loopback(0).await) else {
+            rep.inconclusive("cannot bind targets");
+            return rep;
+        };
+        // same port on v4 wildcard and ::1 is not guaranteed: one target per family
+        let (p4, p6) = (t4.port, t6.port);
+        tokio::spawn(async move {
+            while let Some(a) = t4.rx.recv().await {
+                netkit::spawn_echo(a.stream);
+            }
+        });
+        tokio::spawn(async move {
+            while let Some(a) = t6.rx.recv().await {
+                netkit::spawn_echo(a.stream);
+            }
+        });
+        let mut rng = Rng::new(seed ^ 0xE05);
+        let mut cases = Vec::new();
+        for idx in 0..n {
+            let cfg = GenCfg { max_size: 3000, boundary_heavy: false, allow_junk: true, sane_line0: true };
+            let mut scheme = if idx % 8 == 0 { Scheme::default_scheme() } else { refscheme::gen_scheme(&mut rng, &cfg) };
+            if rng.chance(0.08) {
+                scheme.lines.remove(&0);
+            }
+            let host = match rng.below(4) {
+                0 => "127.0.0.1".to_string(),
+                1 => "::1".to_string(),
+                2 => format!("127.{}.{}.{}", rng.range(1, 250), rng.range(0, 255), rng.range(1, 254)),
+                _ => {
+                    let l = rng.usize(3, 60);
+                    let mut s: String = (0..l).map(|_| (b'a' + rng.below(26) as u8) as char).collect();
+                    s.push_str(".e2e.test");
+                    s
+                }
+            };
+            // sizes around the scheme's own sizes, small enough for one TLS record per write
+            let hints: Vec<u64> = scheme.lines.values().flatten().filter_map(|e| if let Entry::Range { lo, hi, .. } = e { Some(rng.range(*lo, *hi)) } else { None }).collect();
+            let nchunks = (scheme.stop as usize + 1).clamp(2, 12);
+            let chunks: Vec<usize> = (0..nchunks)
+                .map(|_| {
+                    let base = if !hints.is_empty() && rng.chance(0.7) { *rng.pick(&hints) as i64 + rng.range(0, 40) as i64 - 20 } else { rng.range(1, 6000) as i64 };
+                    base.clamp(1, 8000) as usize
+                })
+                .collect();
+            cases.push(E2eCase { idx, scheme, host, chunks });
+        }
+        let results: Arc<Mutex<Vec<(E2eCase, Result<E2eOut, String>)>>> = Arc::new(Mutex::new(Vec::new()));
+        {
+            let results = results.clone();
+            netkit::for_each_limited(cases, 8, move |c| {
+                let results = results.clone();
+                async move {
+                    let port = if c.host == "::1" { p6 } else { p4 };
+                    let r = e2e_case(&c, port).await;
+                    results.lock().unwrap().push((c, r));
+                }
+            })
+            .await;
+        }
+        let results = std::mem::take(&mut *results.lock().unwrap());
+        for (c, r) in results {
+            let desc = json!({"kind": "c05-e2e", "idx": c.idx, "scheme": c.scheme.text(), "host": c.host, "chunks": c.chunks, "seed": seed.to_string()});
+            let out = match r {
+                Ok(o) => o,
+                Err(e) => {
+                    // transport / echo trouble is other properties' business; here it only means nothing was observed
+                    rep.add("e2e_cases_without_observation", 1);
+                    rep.note(format!("e2e case {} not judged: {e}", c.idx));
+                    continue;
+                }
+            };
+            if !out.handshake_ok {
+                rep.inconclusive(format!("e2e case {}: client handshake flight not recognised (TLS stack differs from the one this monitor was calibrated on)", c.idx));
+                continue;
+            }
+            // destination header as client.rs writes it
+            let addr_len = if c.host.parse::<std::net::Ipv4Addr>().is_ok() {
+                1 + 4 + 2
+            } else if c.host.parse::<std::net::Ipv6Addr>().is_ok() {
+                1 + 16 + 2
+            } else {
+                1 + 1 + c.host.len() + 2
+            };
+            let first_payload = settings_len + 7 + 7 + addr_len;
+            let (lo, hi) = match c.scheme.items(0).unwrap_or_default().first() {
+                Some(Item::Range(lo, hi)) => (*lo, *hi),
+                _ => (0, 0),
+            };
+            let mut payloads = vec![first_payload];
+            payloads.extend(c.chunks.iter().map(|n| 7 + n));
+            let build = |payloads: &[usize]| {
+                let mut specs = vec![Spec::Preamble(lo, hi)];
+                for (i, p) in payloads.iter().enumerate() {
+                    let k = (i + 1) as u32;
+                    specs.push(if k < c.scheme.stop {
+                        match c.scheme.items(k) {
+                            Some(items) => Spec::Shaped(items, *p),
+                            None => Spec::Unpadded(*p),
+                        }
+                    } else {
+                        Spec::Unpadded(*p)
+                    });
+                }
+                specs
+            };
+            // The session's keep-alive task sends one HeartRequest (a 7-byte frame) when it starts; where it
+            // lands relative to the request's packets depends on scheduling: inside the first batch, or as
+            // a packet of its own after any packet. It is a session packet like any other and takes a line.
+            let mut alternatives: Vec<(String, Vec<usize>)> = vec![("no keep-alive".into(), payloads.clone())];
+            {
+                let mut v = payloads.clone();
+                v[0] += 7;
+                alternatives.push(("keep-alive inside the first batch".into(), v));
+            }
+            for pos in 1..=payloads.len() {
+                let mut v = payloads.clone();
+                v.insert(pos, 7);
+                alternatives.push((format!("keep-alive after packet {pos}"), v));
+            }
+            let mut verdict: Result<String, (usize, usize)> = Err((0, 0));
+            for (name, alt) in &alternatives {
+                match explain(&build(alt), &out.c2s) {
+                    Ok(()) => {
+                        verdict = Ok(name.clone());
+                        break;
+                    }
+                    Err(b) => {
+                        if let Err(best) = &verdict
+                            && b > *best
+                        {
+                            verdict = Err(b);
+                        }
+                    }
+                }
+            }
+            let specs = build(&payloads);
+            rep.case(Some(hash_str(&format!("e2e|{}|{:?}", c.scheme.text(), out.c2s))));
+            rep.add("e2e_cases_judged", 1);
+            rep.add("e2e_records_explained", out.c2s.len() as u64);
+            rep.add("e2e_packets_judged", specs.len() as u64);
+            if let Ok(name) = &verdict {
+                rep.seen("e2e_keep_alive_position", name.clone());
+            }
+            if let Err((pk, wr)) = verdict {
+                let cause = if pk <= 1 { "first_packet" } else if (pk as u32) < c.scheme.stop { "packet_below_stop" } else { "packet_at_or_after_stop" };
+                rep.violate(
+                    "shape",
+                    &format!("e2e+{cause}"),
+                    "tls_record_sizes_not_explained_by_scheme",
+                    format!(
+                        "real Client -> Server behind a record-length relay: client->server application records carry plaintext sizes {:?}; packets expected: preamble 34+[{lo},{hi}], then payloads {:?} (first = Settings {settings_len} + SYN 7 + destination {}), stop={}. No way to cut the records into consecutive packets accepted by lines 0,1,2,... (with the session's one keep-alive request placed anywhere): at best {pk} packets / {wr} records can be explained; line {} = {:?}",
+                        out.c2s,
+                        payloads,
+                        7 + addr_len,
+                        c.scheme.stop,
+                        pk,
+                        c.scheme.items(pk as u32)
+                    ),
+                    desc.clone(),
+                );
+                continue;
+            }
+            // the server never pads: everything it sent during the echo phase is data frames
+            let (bytes, records) = out.s2c_delta;
+            let extra = bytes as i64 - out.echoed as i64;
+            rep.add("e2e_server_records_checked", records as u64);
+            if extra < 7 || extra % 7 != 0 || extra > 7 * records as i64 {
+                rep.violate(
+                    "shape",
+                    "e2e+server_side",
+                    "server_sent_more_than_data_frames",
+                    format!("while echoing {} bytes the server sent {records} TLS records carrying {bytes} plaintext bytes: {extra} bytes besides the echoed data, which is not 7 bytes of header per frame for 1..{records} frames", out.echoed),
+                    desc,
+                );
+            }
+            if let Some(n) = out.note {
+                rep.note(n);
+            }
+        }
+        rep
+    });
+    rep.merge(rep0);
+    run::case_end();
+    rep
 }
